@@ -28,7 +28,7 @@ def lanelet_spec(i, signs=(), lights=()):
 def obj_spec(kind, i, extra=None):
     extra = extra or {}
     if kind == "lanelet":
-        return lanelet_spec(i)
+        return lanelet_spec(i, extra.get("signs", ()), extra.get("lights", ()))
     if kind == "sign":
         return {"id": i, "elems": [{"id": "MAX_SPEED", "vals": ["10"]}], "pos": [1.0, 4.0 * i]}
     if kind == "light":
@@ -107,11 +107,13 @@ class Model:
         if k == "lanelet":
             self.refs.pop(i, None)
         elif k == "sign":
+            existing = {j for j, (kk, _) in self.contained.items() if kk == "sign"}
             for r in self.refs.values():
-                r["signs"].discard(i)
+                r["signs"] &= existing  # the network drops every reference to a sign that is not in it
         elif k == "light":
+            existing = {j for j, (kk, _) in self.contained.items() if kk == "light"}
             for r in self.refs.values():
-                r["lights"].discard(i)
+                r["lights"] &= existing
         elif k == "intersection":
             for j in [j for j, (kk, o) in self.contained.items() if kk == "incoming" and o == i]:
                 self.contained.pop(j)
@@ -490,6 +492,11 @@ class Run(RunBase):
                 ref = bool(op.get("ref", True))
                 call = lambda: sc.remove_lanelet(arg, referenced_elements=ref)  # noqa
                 if ref:
+                    for i in ids:
+                        r = self.m.refs[i]
+                        if any(self.m.contained.get(x, ("sign",))[0] not in ("sign",) for x in r["signs"]) or \
+                                any(self.m.contained.get(x, ("light",))[0] not in ("light",) for x in r["lights"]):
+                            self.probe("lanelet-with-reference-to-foreign-id-removed")
                     signs, lights = self.m.hanging(ids)
                     if signs or lights:
                         self.probe("lanelet-removal-takes-sign-or-light")
@@ -707,7 +714,7 @@ class C09(Property):
                        "remove-intersection-single", "lanelet-removal-takes-sign-or-light",
                        "lanelet-removal-leaves-shared-sign", "replace-overlapping-ids", "restart-pickle",
                        "restart-deepcopy", "remove-non-contained-obstacle", "gen-between-gen-and-add", "erase-network",
-                       "restart-file", "object-with-internally-repeated-id", "replace-with-internally-repeated-id"]
+                       "restart-file", "object-with-internally-repeated-id", "replace-with-internally-repeated-id", "lanelet-with-reference-to-foreign-id-removed"]
     assumptions = [
         "interleaving granularity is one public call (the library has no threads)",
         "list-form adds are sequential adds: the accepted prefix before a refused element stays (documented relaxation)",
@@ -734,6 +741,13 @@ class C09(Property):
             kind = rng.weighted(kinds, weights)
             i = rng.randint(1, MAX_ID)
             extra = {}
+            if kind == "lanelet" and rng.chance(0.25):
+                # references to ids that need not be signs / lights at all (legal: a lanelet only stores ids) -
+                # they may coincide with the id of some other object
+                extra["signs"] = sorted(rng.sample(range(1, MAX_ID + 1), rng.randint(1, 2)))
+                extra["lights"] = sorted(rng.sample(range(1, MAX_ID + 1), rng.randint(0, 1)))
+                extra["signs"] = [x for x in extra["signs"] if x != i]
+                extra["lights"] = [x for x in extra["lights"] if x != i]
             if kind == "intersection":
                 pool = [x for x in range(1, MAX_ID + 1) if x != i]
                 extra["incoming_ids"] = sorted(rng.sample(pool, rng.randint(1, 2)))
